@@ -495,7 +495,8 @@ def _run_callers(desc):
     """the sparse labelling kernels are declared threadsafe (the GIL is released): two calls on DIFFERENT frames run as two logical
     threads on the schedule-exploring runtime; every interleaving at the words both touch (within 2 preemptions); each call's labels
     are what the call produces alone"""
-    _, tier = desc
+    _, tier = desc[:2]
+    only = desc[2] if len(desc) > 2 else None          # replay: just this (frames, kernels) pair
     from vt.vrt import VRT, callers_interfere
     from vt.sani import Call, A, I, F
     sh = Shard()
@@ -519,6 +520,8 @@ def _run_callers(desc):
     for a, b in pairs:
         for ka, kb in (("sparse_connectedpixels", "sparse_connectedpixels"), ("sparse_connectedpixels", "sparse_connectedpixels_splat"),
                        ("sparse_connectedpixels_splat", "sparse_connectedpixels_splat")):
+            if only is not None and ([a, b], [ka, kb]) != (only[0], only[1]):
+                continue
             bad, r = callers_interfere(V, spec(ka, frames[a]), spec(kb, frames[b]))
             case = {"kind": "callers", "frames": [a, b], "kernels": [ka, kb]}
             for sched in (bad or [])[:1]:
@@ -529,7 +532,8 @@ def _run_callers(desc):
             sh.count("caller_pair_conflict_words", r["filter_size"])
             sh.evaluations += 1
             sh.nontrivial += 1
-    sh.sample(case, limit=1)
+    if sh.evaluations:
+        sh.sample(case, limit=1)
     return sh
 
 
@@ -552,8 +556,8 @@ def replay(case):
     import io
     sh = Shard()
     if case["kind"] == "callers":
-        r = _run_callers(("callers", "thorough"))
-        v = [x for x in r.violations if x["case"]["frames"] == case["frames"] and x["case"]["kernels"] == case["kernels"]]
+        r = _run_callers(("callers", "thorough", (case["frames"], case["kernels"])))
+        v = r.violations
         return (not v), {"violations": v[:2]}
     if case["kind"] == "sparsescan":
         r = _run_sparsescan(("sparsescan", "thorough"))
